@@ -204,6 +204,45 @@ def check_detect(np, cnn, ridges, rot, ds=1, H=100, W=150):
     return bad
 
 
+def adaptive_downsample_check():
+    """the real TorchParseNet.get_maps_with_optimal_resolution (the function LayoutEngine.detect takes (maps, ds) from) on ONE long-lived
+    object over page histories: the factor it returns is the factor the returned maps were computed with.  get_maps is replaced by a
+    recorder that derives the maps from (text height of the page, factor) and tags them with the factor."""
+    core.setup_repo_path()
+    import numpy as np
+    import torch
+    from pero_ocr.layout_engines import torch_parsenet as tp
+    bad, n = [], 0
+    real_load = torch.jit.load
+    torch.jit.load = lambda *a, **k: None
+    try:
+        class Rec(tp.TorchParseNet):
+            def get_maps(self, img, downsample):
+                h, w = int(img.shape[0] / downsample), int(img.shape[1] / downsample)
+                m = np.zeros((max(h, 4), max(w, 64), 5), dtype=np.float32)
+                m[:, :, 0] = float(img[0, 0, 0]) / downsample          # text height in map pixels
+                m[:4, :60, 2] = 1.0                                     # 240 baseline pixels above the detection threshold
+                m[0, 0, 4] = downsample                                 # tag: the factor these maps were computed with
+                return m
+        histories = [(48,), (88,), (128,), (20,), (88, 128), (128, 88), (88, 128, 40), (20, 12, 200), (200, 200, 20, 20), (60, 100, 100, 30, 90), (128, 96, 104, 112)]
+        for adaptive in (True, False):
+            for init in (4, 2):
+                for hist in histories:
+                    net = Rec('stub', torch.device('cpu'), downsample=init, adaptive_downsample=adaptive)
+                    for step, height in enumerate(hist):
+                        n += 1
+                        img = np.zeros((420, 560, 3), dtype=np.uint8)
+                        img[0, 0, 0] = height
+                        maps, ds = net.get_maps_with_optimal_resolution(img)
+                        if abs(float(maps[0, 0, 4]) - float(ds)) > 1e-6:
+                            bad.append(('original-image-coordinates', 'page #%d of the history of text heights %r (adaptive=%r, initial factor %d): the returned factor is %.3f, '
+                                        'the returned maps were computed with %.3f' % (step + 1, hist, adaptive, init, float(ds), float(maps[0, 0, 4]))))
+                            break
+    finally:
+        torch.jit.load = real_load
+    return n, bad
+
+
 def _chunk(items):
     core.setup_repo_path()
     import warnings
@@ -317,6 +356,15 @@ def run(ctx):
                     res['evaluations'], res['nontrivial'], False, res['samples'], fails,
                     rule='every map of the stated grid; non-trivial = at least two ridges', clause='one line per ridge, positions, heights, original-image coordinates')
     bounded.close()
+    try:
+        n_, bad_ = adaptive_downsample_check()
+    except Exception as e:
+        n_, bad_ = 1, [('no-exception', 'get_maps_with_optimal_resolution raised %r' % (e,))]
+    ctx.add_bounded('adaptive-downsample', 'real TorchParseNet.get_maps_with_optimal_resolution with a recording get_maps: 11 page histories (text heights 12..200 px) x adaptive on/off x '
+                    'initial factor 4/2 on one long-lived object', n_, n_, False, [{'text_heights': [88, 128]}],
+                    [Failure(sig('rt', 'TorchParseNet.get_maps_with_optimal_resolution', c_), d_, function='TorchParseNet.get_maps_with_optimal_resolution', input={'adaptive_downsample': True},
+                             observed=d_, clause=c_) for c_, d_ in bad_[:1]],
+                    rule='fixed histories', clause='the down-sampling factor handed to the decoder is the one the maps were computed with')
     ctx.trusted += ['A6: scipy.ndimage, shapely, cv2', 'ridge decoding beyond the grid is not decided (numeric, bounded)']
     if thorough:
         selftest.run(ctx, MUTANTS)
@@ -325,6 +373,12 @@ def run(ctx):
 def replay(entry):
     core.setup_repo_path()
     inp = entry.get('input') or {}
+    if inp.get('adaptive_downsample'):
+        n_, bad = adaptive_downsample_check()
+        for b in bad:
+            print('REPLAY-FAIL', b)
+        print('replay: %d problem(s) over %d calls' % (len(bad), n_))
+        return 1 if bad else 0
     if 'ridges' not in inp:
         print('replay: obligation %s has no concrete input; solver output:\n%s' % (entry.get('obligation'), entry.get('solver_output')))
         return 1
